@@ -348,6 +348,32 @@ def ages_for(first, last, tier):
     return sorted(set(c for c in cand if first <= c <= last + 20), key=float)
 
 
+def table_shape(mon, ctx):
+    """invariant on the live tables (as the graders hold them after use): one cell per age column in every row, each cell null or
+    a number in (0, 50]; the distance and best columns numbers - a decimal comma, a dropped or doubled cell shifts every factor
+    to its right by one age and no sweep over ages can tell, because the oracle reads the same file"""
+    import athlib
+    for name, ag in (('2015', athlib.ag2015), ('2023', athlib.ag2023), ('athlons', athlib.aag)):
+        data = ag.get_data()
+        nages = len(data['ages'])
+        for g in 'mf':
+            for row in data[g]:
+                ctx.count('eval.table-row-shape')
+                case = {'table': name, 'gender': g, 'row': row[0]}
+                # single-event rows: code, distance, open best, one factor per age; combined-events rows: code, one factor per
+                # five-year band from 35 (the first entry of its 'ages' list, 30, stands for the open class and has no cell)
+                cells = row[3:] if name != 'athlons' else [None] + row[1:]
+                if len(cells) != nages:
+                    ctx.violation('table-shape:row-length-differs-from-age-columns:%s' % name, case, nages, len(cells))
+                    continue
+                bad = [(data['ages'][i], c) for i, c in enumerate(cells)
+                       if c is not None and not (isinstance(c, (int, float)) and not isinstance(c, bool) and 0 < c <= 50)]
+                if bad and not (name == '2015' and g == 'f' and row[0] == 'PV'):        # the listed finding (null / zero cells of that row)
+                    ctx.violation('table-shape:cell-not-a-factor:%s' % name, dict(case, cells=bad[:5]), 'null or a number in (0, 50]', bad[:5])
+                else:
+                    ctx.nt(('shape', name, g, row[0]))
+
+
 def run_shard(ctx, spec):
     core.import_athlib()
     mon = Monitor(ctx)
@@ -433,8 +459,15 @@ def run_shard(ctx, spec):
                         if timed and gs in ('m', 'f') and best >= 60:
                             mm, ss = divmod(round(best * 1.05, 2), 60)
                             attach.call(a.wma_age_grade, gs, age, e2, '%d:%05.2f' % (mm, ss), year=y)
+        # every column of the row, once, in the plain spelling (boundary ages alone would not touch a cell in mid-row)
+        for age in ages_l[nn[0]:]:
+            attach.call(a.wma_age_factor, g, age, ev, year=y)
+            attach.call(a.wma_age_grade, g, age, ev, best * 1.05, year=y)
+            ctx.count('eval.every-column-of-the-row')
         mon.mono.maps.clear()
         mon.spell.clear()
+    if spec['i'] == 0:
+        table_shape(mon, ctx)
     ctx.require('judged.factor', 200)
     ctx.require('judged.grade', 200)
     ctx.require('judged.best', 20)
